@@ -161,6 +161,43 @@ type Store struct {
 	Err     []bool
 	CondMet map[string]bool
 	CondErr map[string]bool
+	// Hidden candidates are not served by the Reader (they travel as contextual tuples of the request);
+	// their presence bit still counts for the reference semantics.
+	Hidden []bool
+}
+
+// AnyPresentConditionError: some stored (or contextual) tuple carries a condition that cannot be
+// evaluated under the request context.
+func (s *Store) AnyPresentConditionError() bool {
+	r := false
+	for i := range s.U.Cands {
+		r = r || (s.Q[i] && s.Err[i])
+	}
+	return r
+}
+
+func (s *Store) hidden(i int) bool { return s.Hidden != nil && s.Hidden[i] }
+
+// SplitContextual moves the first k valid candidates out of the store: each of them that is present
+// (forked now, the list must be concrete) is returned as a contextual tuple instead.
+func (s *Store) SplitContextual(k int) []*openfgav1.TupleKey {
+	s.Hidden = make([]bool, len(s.U.Cands))
+	var out []*openfgav1.TupleKey
+	n := 0
+	for i, c := range s.U.Cands {
+		if n >= k {
+			break
+		}
+		if !c.Valid {
+			continue // request validation rejects contextual tuples the model does not allow
+		}
+		n++
+		s.Hidden[i] = true
+		if s.P[i] {
+			out = append(out, c.Key)
+		}
+	}
+	return out
 }
 
 func NewSymbolicStore(u *Universe) *Store {
@@ -300,6 +337,9 @@ func (r *Reader) tuple(i int) *openfgav1.Tuple {
 func (r *Reader) Read(_ context.Context, _ string, f storage.ReadFilter, _ storage.ReadOptions) (storage.TupleIterator, error) {
 	var out []*openfgav1.Tuple
 	for i, c := range r.S.U.Cands {
+		if r.S.hidden(i) {
+			continue
+		}
 		if matchKey(c.Key, f.Object, f.Relation, f.User) && (len(f.Conditions) == 0 || containsStr(f.Conditions, c.Cond)) && r.S.P[i] {
 			out = append(out, r.tuple(i))
 		}
@@ -310,6 +350,9 @@ func (r *Reader) Read(_ context.Context, _ string, f storage.ReadFilter, _ stora
 func (r *Reader) ReadPage(ctx context.Context, store string, f storage.ReadFilter, _ storage.ReadPageOptions) ([]*openfgav1.Tuple, string, error) {
 	var out []*openfgav1.Tuple
 	for i, c := range r.S.U.Cands {
+		if r.S.hidden(i) {
+			continue
+		}
 		if matchKey(c.Key, f.Object, f.Relation, f.User) && r.S.P[i] {
 			out = append(out, r.tuple(i))
 		}
@@ -319,6 +362,9 @@ func (r *Reader) ReadPage(ctx context.Context, store string, f storage.ReadFilte
 
 func (r *Reader) ReadUserTuple(_ context.Context, _ string, f storage.ReadUserTupleFilter, _ storage.ReadUserTupleOptions) (*openfgav1.Tuple, error) {
 	for i, c := range r.S.U.Cands {
+		if r.S.hidden(i) {
+			continue
+		}
 		if matchKey(c.Key, f.Object, f.Relation, f.User) && (len(f.Conditions) == 0 || containsStr(f.Conditions, c.Cond)) && r.S.P[i] {
 			return r.tuple(i), nil
 		}
@@ -329,6 +375,9 @@ func (r *Reader) ReadUserTuple(_ context.Context, _ string, f storage.ReadUserTu
 func (r *Reader) ReadUsersetTuples(_ context.Context, _ string, f storage.ReadUsersetTuplesFilter, _ storage.ReadUsersetTuplesOptions) (storage.TupleIterator, error) {
 	var out []*openfgav1.Tuple
 	for i, c := range r.S.U.Cands {
+		if r.S.hidden(i) {
+			continue
+		}
 		if !matchKey(c.Key, f.Object, f.Relation, "") {
 			continue
 		}
@@ -366,6 +415,9 @@ func (r *Reader) ReadStartingWithUser(_ context.Context, _ string, f storage.Rea
 	}
 	var hits []rec
 	for i, c := range r.S.U.Cands {
+		if r.S.hidden(i) {
+			continue
+		}
 		ot, oid := tuple.SplitObject(c.Key.GetObject())
 		if ot != f.ObjectType || c.Key.GetRelation() != f.Relation {
 			continue
